@@ -7,6 +7,7 @@
 //!   zv list                                list the properties with checks
 
 mod core;
+mod e1;
 mod hostcall;
 mod pipeline;
 mod prelude;
@@ -56,6 +57,28 @@ fn main() {
                 std::process::exit(2);
             };
             replay(path)
+        }
+        | Some("e1") => {
+            // zv e1 <tag> <seed> <index> [style#] : print one generated program (body only) and its verdict
+            let tag = args.get(2).cloned().unwrap_or("C02".into());
+            let seed: u64 = args.get(3).and_then(|s| s.parse().ok()).unwrap_or(0);
+            let index: u64 = args.get(4).and_then(|s| s.parse().ok()).unwrap_or(0);
+            let style_no: usize = args.get(5).and_then(|s| s.parse().ok()).unwrap_or(0);
+            let program = e1::generate::generate(seed, &tag, index);
+            let styles = props::c02::styles_for(index);
+            let style = &styles[style_no.min(styles.len() - 1)];
+            let text = e1::print::program_text(&program, style, seed ^ index);
+            let body_at = text.find(") in\n").map(|i| i + 5).unwrap_or(0);
+            println!("{}", &text[body_at..]);
+            let reference = e1::eval::run(&program, 400_000);
+            println!("--- reference: {:?} stdout={:?}", reference.end, String::from_utf8_lossy(&reference.stdout));
+            let r = pipeline::check_and_run(&pipeline::Sources::single(text), b"", &[], 2_000_000);
+            let brief = r.verdict.brief();
+            println!("--- style {} verdict: {}", style.describe(), brief.lines().take(12).collect::<Vec<_>>().join("\n"));
+            if let Some(run) = r.run {
+                println!("--- run: {:?} stdout={:?}", run.end, String::from_utf8_lossy(&run.stdout));
+            }
+            0
         }
         | Some("list") => {
             for def in props::all() {
